@@ -360,11 +360,13 @@ def gen_schema(rng, idx, max_depth=3, userord=True, state=True, choices=True, de
 
 
 def userord_schema(kind):
-    """Hand schemas for the exhaustive user-ordered runs.  kind: list | leaflist | keyless | statell | statelist"""
+    """Hand schemas for the exhaustive user-ordered runs.  kind: list | leaflist | strll | keyless | statell | statelist"""
     if kind == "list":
         l = SNode("list", "ul", keys=["k"], userord=True, kids=[SNode("leaf", "k", ty=Ty("uint8"), iskey=True), SNode("leaf", "v", ty=Ty("string"))])
     elif kind == "leaflist":
         l = SNode("leaflist", "ul", ty=Ty("uint8"), userord=True)
+    elif kind == "strll":
+        l = SNode("leaflist", "ul", ty=Ty("string"), userord=True)
     elif kind == "keyless":
         l = SNode("list", "ul", keys=[], userord=True, config=False, kids=[SNode("leaf", "v", ty=Ty("uint8"), config=False)])
     elif kind == "statell":
